@@ -27,11 +27,17 @@ func init() {
 	// harness; bin/check runs both and the second run merges its evidence into the first's)
 	register(&vcore.Prop{
 		ID: "C04", Level: "exploration", Worlds: "K", NeedNS: true,
-		Rule:       "world K: one run = one option vector (credential, drop-caps, no-new-privs, seccomp, callback, late cgroup unshare, six clone flags, user namespace, host/domain only under a new UTS namespace, workdir, rlimits) launched for real by forkexec with the probe as target; the probe's self-report (capget, securebits, no_new_privs, seccomp mode, ids, groups, session, cwd, uname, rlimits) is compared with the request",
+		Rule:       "world K: one run = one option vector (credential, drop-caps, no-new-privs, seccomp, callback, late cgroup unshare, six clone flags, user namespace, host/domain only under a new UTS namespace, workdir, rlimits) launched for real by forkexec with the probe as target; the probe's self-report (capget, securebits, no_new_privs, seccomp mode, ids, groups, session, cwd, uname, rlimits) is compared with the request; a fifth of the runs build a real container with a drawn identity (credential generator, container uid and gid customised independently), host/domain name, work directory and optional filter, and judge the state report of a program started in it plus, from outside, the owner of a file it created",
 		Components: kComponents, Assumptions: kAssume,
 		Quick:    vcore.Budget{Wall: 15 * time.Second, Shards: 16},
 		Thorough: vcore.Budget{Wall: 6 * time.Minute, Shards: 16},
-		Init:     kInit, Run: cKLaunchRun("C04", true, false), StallLimit: 120 * time.Second,
+		Init:     kInit, StallLimit: 120 * time.Second,
+		Run: func(c *vcore.Ctx) *vcore.Violation {
+			if c.Src.Bool(1, 5, "container_state") {
+				return c04ContainerRun(c)
+			}
+			return cKLaunchRun("C04", true, false)(c)
+		},
 	})
 	register(&vcore.Prop{
 		ID: "C06", Level: "exploration", Worlds: "K", NeedNS: true,
